@@ -36,6 +36,8 @@ func fuzzSetup() *env.Env {
 		e.Topo.AddTarget("t1", "devicesim", "1.0.0", false, false)
 		e.Topo.AddTarget("t2", "devicesim", "1.0.0", true, false)
 		e.Topo.AddTarget("t3", "nomodel", "9.9", false, false)
+		e.Topo.AddTarget("t4", "devicesim", "1.0.0", false, false)
+		createEmptyConfiguration(e, "t4")
 		e.StartControllers(false)
 		// a populated configuration on t1
 		g := &gen{r: nil}
